@@ -9,6 +9,11 @@
 //	    coordinator built from the observed lists, a coordinator restored from the boot storage) are driven
 //	    through epochs with the real shuffler; ComputeConsensusGroup is called for many (randomness, round,
 //	    shard, epoch); configurations and results are logged for Trace_Selection.
+//	vh-selection concurrent <trace-out> <scenarios> <goroutines> <calls>
+//	    G goroutines call ComputeConsensusGroup on ONE coordinator (no cache / a cache of 2 entries) for the same
+//	    shard with a mix of identical and different (randomness, round); every result is compared with the
+//	    result the same coordinator computed for that input alone beforehand; differing results and a sample of
+//	    the others are logged as "ComputeC" events so that TLC evaluates the C15 invariants on them.
 package main
 
 import (
@@ -517,10 +522,153 @@ func record(out string, n int) {
 	vtrace.Stat("distinct", st.distinct.Len())
 }
 
+// ---------------------------------------------------------------------------------------------------------
+// concurrent use: G goroutines call ComputeConsensusGroup on ONE coordinator for the same shard
+
+type concRes struct {
+	input int
+	err   string
+	group []int
+}
+
+func concurrent(out string, n, goroutines, calls int) {
+	w, err := vtrace.NewWriter(out)
+	if err != nil {
+		vtrace.Broken(err.Error())
+		return
+	}
+	seed, _ := strconv.ParseInt(os.Getenv("VERIF_SEED"), 10, 64)
+	rng := rand.New(rand.NewSource(seed))
+	tables := [][]uint32{{5, 0, 0, 2, 8, 16, 17, 18, 20, 22, 24}, {3, 1, 1, 9, 9, 1, 30}}
+	total, mismatches, logged, samples := 0, 0, 0, 0
+	distinct := vtrace.NewDistinct()
+	for i := 0; i < n; i++ {
+		sc := scenario{nbShards: 1 + rng.Intn(2), table: tables[rng.Intn(len(tables))]}
+		sc.shardSize, sc.metaSize = 4+rng.Intn(5), 4+rng.Intn(5)
+		sc.perShard, sc.perMeta = sc.shardSize+rng.Intn(7), sc.metaSize+rng.Intn(7)
+		sc.nodesShard, sc.nodesMeta = sc.perShard, sc.perMeta
+		class := []string{"plain", "rater"}[i%2]
+		shards := shardIDs(sc.nbShards)
+		elig, wait := map[int][]nc.Val{}, map[int][]nc.Val{}
+		id := 0
+		for _, s := range shards {
+			cnt := sc.perShard
+			if s == nc.MetaOut {
+				cnt = sc.perMeta
+			}
+			for j := 0; j < cnt; j++ {
+				id++
+				elig[s] = append(elig[s], nc.Val{ID: id, Chances: 1 + rng.Intn(9), Index: j})
+			}
+			wait[s] = []nc.Val{}
+		}
+		w.NewTrace()
+		nodes := []*node{
+			buildNode(sc, class, "none", "C", elig, wait, 0, nil, nil),
+			buildNode(sc, class, "lru", "T", elig, wait, 0, nc.NewLRU(2), nil), // a tiny cache: the selector is really exercised
+		}
+		shard := shards[rng.Intn(len(shards))] // every call of the scenario is for this shard
+		const K = 16
+		type input struct {
+			rnd   []byte
+			round uint64
+		}
+		pool := make([]input, K)
+		for k := range pool {
+			pool[k].rnd, pool[k].round = randomSeed(rng)
+		}
+		seeds := vtrace.NewInterner()
+		for _, nd := range nodes {
+			if !logConfig(w, nd, 0, sc) {
+				vtrace.Broken("no configuration for epoch 0")
+				return
+			}
+			// the reference: every input computed alone, beforehand, on the same coordinator
+			ref := make([][]int, K)
+			refErr := make([]string, K)
+			for k, in := range pool {
+				refErr[k], ref[k] = compute(w, nd, seeds, in.rnd, in.round, shard, 0)
+			}
+			// the concurrent phase: start barrier, a mix of one hot input and the others
+			start := make(chan struct{})
+			results := make([][]concRes, goroutines)
+			done := make(chan int, goroutines)
+			for g := 0; g < goroutines; g++ {
+				g := g
+				r := rand.New(rand.NewSource(seed*1000 + int64(i*64+g)))
+				go func() {
+					res := make([]concRes, 0, calls)
+					<-start
+					for c := 0; c < calls; c++ {
+						k := r.Intn(K)
+						if r.Intn(4) == 0 {
+							k = 0
+						}
+						grp, e := safeCompute(nd.c, pool[k].rnd, pool[k].round, shard, 0)
+						es := ""
+						if e != nil {
+							es = "other: " + e.Error()
+						}
+						ids := nc.ValIDs(grp)
+						if ids == nil {
+							ids = []int{}
+						}
+						res = append(res, concRes{k, es, ids})
+					}
+					results[g] = res
+					done <- g
+				}()
+			}
+			close(start)
+			for g := 0; g < goroutines; g++ {
+				<-done
+			}
+			nodeMismatch := 0
+			for g := range results {
+				for c, r := range results[g] {
+					total++
+					same := r.err == refErr[r.input] && vtrace.EqInts(r.group, ref[r.input])
+					if !same {
+						mismatches++
+						nodeMismatch++
+					}
+					// every differing result (a handful) and a sample of the others go to TLC
+					if (!same && nodeMismatch <= 25) || (same && c%32 == g%32) {
+						logged++
+						in := pool[r.input]
+						w.Emit("ComputeC", nd.in(M{"seed": seeds.ID([]byte(fmt.Sprintf("%d|%s", in.round, in.rnd))), "epoch": 0, "shard": shard}),
+							M{"err": r.err, "group": r.group}, M{})
+					}
+					if !same && samples < 2 {
+						samples++
+						vtrace.Sample("C15", M{"concurrent_call": M{"class": class, "node": nd.kind, "shard": shard, "round": in2(pool[r.input].round),
+							"randomness": vtrace.Hex(pool[r.input].rnd)}, "result": r.group, "error": r.err, "sequential_result": ref[r.input]})
+					}
+				}
+			}
+			distinct.Add(fmt.Sprint(class, nd.kind, shard == nc.MetaOut, sizeOf(sc, shard), len(elig[shard])))
+		}
+	}
+	if err := w.Close(); err != nil {
+		vtrace.Broken(err.Error())
+	}
+	if mismatches == 0 {
+		vtrace.Sample("C15", M{"concurrent_calls": total, "goroutines": goroutines, "all_equal_to_sequential_reference": true})
+	}
+	vtrace.Stat("events", w.N)
+	vtrace.Stat("scenarios", n)
+	vtrace.Stat("concurrent_calls", total)
+	vtrace.Stat("concurrent_differ", mismatches)
+	vtrace.Stat("concurrent_logged", logged)
+	vtrace.Stat("distinct", distinct.Len())
+}
+
+func in2(v uint64) string { return strconv.FormatUint(v, 10) }
+
 func main() {
 	vtrace.Quiet()
 	if len(os.Args) < 3 {
-		fmt.Fprintln(os.Stderr, "usage: vh-selection replay <behaviours> <trace-out> | record <trace-out> <scenarios>")
+		fmt.Fprintln(os.Stderr, "usage: vh-selection replay <behaviours> <trace-out> | record <trace-out> <scenarios> | concurrent <trace-out> <scenarios> <goroutines> <calls>")
 		os.Exit(2)
 	}
 	switch os.Args[1] {
@@ -529,6 +677,11 @@ func main() {
 	case "record":
 		n, _ := strconv.Atoi(os.Args[3])
 		record(os.Args[2], n)
+	case "concurrent":
+		n, _ := strconv.Atoi(os.Args[3])
+		g, _ := strconv.Atoi(os.Args[4])
+		c, _ := strconv.Atoi(os.Args[5])
+		concurrent(os.Args[2], n, g, c)
 	default:
 		os.Exit(2)
 	}
